@@ -16,10 +16,12 @@ Theorem C06_string_exact : forall l r s r', take_str l r = Some (s, r') -> r = s
 Proof. exact GenProofs.take_str_exact. Qed.
 Theorem C06_string_truncated : forall l r, N.of_nat (length r) < l -> take_str l r = None.
 Proof. exact GenProofs.take_str_truncated. Qed.
-Theorem C06_bytes_exact : forall n r s r', read_slice n r = Some (Some s, r') -> r = s ++ r' /\ Z.of_nat (length s) = n.
+Theorem C06_bytes_exact : forall n r s r', read_slice n r = Some (s, r') -> r = s ++ r' /\ Z.of_nat (length s) = n.
 Proof. exact GenProofs.read_slice_exact. Qed.
-Theorem C06_bytes_truncated : forall n r, (0 < n)%Z -> (Z.of_nat (length r) < n)%Z -> read_slice n r = None.
+Theorem C06_bytes_truncated : forall n r, (Z.of_nat (length r) < n)%Z -> read_slice n r = None.
 Proof. exact GenProofs.read_slice_truncated. Qed.
+Theorem C06_bytes_negative : forall n r, (n < 0)%Z -> read_slice n r = None.
+Proof. exact GenProofs.read_slice_negative. Qed.
 
 (* member level, every scalar member type (bool, all integer widths, floats, strings, enums), any tag, required or
    optional: a non-empty proper prefix of the member's encoding is an error - with the single exception that
@@ -78,8 +80,7 @@ Proof. exact PrefixProofs.inadmissible_rejected. Qed.
 
 (* THE PREFIX CLAUSE AT STRUCT LEVEL FOR ALL MEMBER TYPES: every wf_schema environment, every struct type with a
    finite type graph (members of string, byte-vector, vector, fixed-array, map and nested struct types included),
-   every well-typed value, EVERY prefix p of its encoding: decoding p fails - with an error, or because a list
-   count exceeds the bytes left (DHuge; the implementation then fails after allocating, see C05) - or succeeds
+   every well-typed value, EVERY prefix p of its encoding: decoding p fails with an error, or succeeds
    with exactly the first i members, whose encodings are completely contained in p (p is their encoding,
    possibly followed by the lone first byte of a two-byte head), all later members being optional and holding
    admissible reset values (declared default, else zero), and nothing left unread. A cut inside a string, byte
@@ -88,7 +89,7 @@ Proof. exact PrefixProofs.inadmissible_rejected. Qed.
 (* the clause for every struct type, recursive ones included, kept visible; proved below for finite type graphs *)
 Definition C06_prefix_statement : Prop := forall e k sid vs p q,
   wf_schema k e -> has_type e (TStruct sid) (VStruct vs) -> encode e sid (VStruct vs) = p ++ q ->
-  bad (decode e sid p) \/
+  decode e sid p = DErr \/
   exists i h ps, (i <= length (fields_of e sid))%nat /\
     p = enc_fields e (firstn i vs) (firstn i (fields_of e sid)) ++ h /\ (h = [] \/ halfhead h) /\
     optional (skipn i (fields_of e sid)) /\
@@ -97,7 +98,7 @@ Definition C06_prefix_statement : Prop := forall e k sid vs p q,
 Theorem C06_prefix_general_partial : forall e k n sid vs p q,
   wf_schema k e -> (S k <= 64)%nat -> tfin n e (TStruct sid) = true -> (tneed n e (TStruct sid) + k <= 64)%nat ->
   has_type e (TStruct sid) (VStruct vs) -> encode e sid (VStruct vs) = p ++ q ->
-  bad (decode e sid p) \/
+  decode e sid p = DErr \/
   exists i h ps, (i <= length (fields_of e sid))%nat /\
     p = enc_fields e (firstn i vs) (firstn i (fields_of e sid)) ++ h /\ (h = [] \/ halfhead h) /\
     optional (skipn i (fields_of e sid)) /\
@@ -106,7 +107,7 @@ Theorem C06_prefix_general_partial : forall e k n sid vs p q,
 Proof. exact PrefixGenProofs.prefix_general. Qed.
 Theorem C06_code_schemas_prefix_general : forall sid vs p q, fits_model sid = true ->
   has_type env0 (TStruct sid) (VStruct vs) -> encode env0 sid (VStruct vs) = p ++ q ->
-  bad (decode env0 sid p) \/
+  decode env0 sid p = DErr \/
   exists i h ps, (i <= length (fields_of env0 sid))%nat /\
     p = enc_fields env0 (firstn i vs) (firstn i (fields_of env0 sid)) ++ h /\ (h = [] \/ halfhead h) /\
     optional (skipn i (fields_of env0 sid)) /\
@@ -119,13 +120,15 @@ Theorem C06_member_prefix : forall e k, wf_schema k e -> forall f m t tag req d 
   tfin m e t = true -> has_type e t v -> ty_nest k e t = true -> tag < 256 ->
   (d <> None -> scalar_ty t = true) -> prior_ok e t d prior ->
   enc_var e tag req t d v = p ++ q -> q <> [] -> (tneed m e t + k + 4 * length p + 3 <= f)%nat ->
-  bad (dec_var f e tag req t prior p) \/
+  dec_var f e tag req t prior p = DErr \/
   (req = false /\ (p = [] \/ halfhead p) /\ exists x, dec_var f e tag req t prior p = DOk x [] /\ prior_ok e t d x).
 Proof. exact (fun e k Hwf f => proj1 (PrefixGenProofs.w_all e k Hwf f)). Qed.
 
 (* EMBEDDED LENGTHS that announce more than remains, member level, behind any unknown fields, whatever the rest of
    the input is: a string length (1-byte and 4-byte form) -> error; a byte-vector (SimpleList) count -> error;
-   a LIST count -> refused before any element is decoded (DHuge: the generated code allocates first, C05) *)
+   a LIST count beyond the bytes left, a MAP count beyond half the bytes left -> error before anything is allocated
+   or decoded; a fixed-array count above the array's length -> error (the pinned code indexed past the end:
+   Codec/Pinned.v C06_array_count_pinned_refuted) *)
 Theorem C06_inflated_string_member : forall e f tag req prior lo J (four : bool) l r,
   junk_ok lo tag J -> tag < 256 -> N.of_nat (length r) < l -> l < (if four then 4294967296 else 256) ->
   let field := (if four then head tSTR4 tag ++ be 4 l else head tSTR1 tag ++ [l]) ++ r in
@@ -142,8 +145,20 @@ Theorem C06_inflated_list_member : forall e f tag req x prior lo J n r,
   junk_ok lo tag J -> tag < 256 -> (length r < n)%nat -> N.of_nat n < 2147483648 ->
   let field := head tLIST tag ++ w_int32 (Z.of_nat n) 0 ++ r in
   (2 * length (ser_fields J ++ field) + 3 <= f)%nat ->
-  dec_var (S f) e tag req (TVec x) prior (ser_fields J ++ field) = DHuge.
+  dec_var (S f) e tag req (TVec x) prior (ser_fields J ++ field) = DErr.
 Proof. exact PrefixProofs.inflated_list_member. Qed.
+Theorem C06_inflated_map_member : forall e f tag req kt vt prior lo J n r,
+  junk_ok lo tag J -> tag < 256 -> (length r < 2 * n)%nat -> N.of_nat n < 2147483648 ->
+  let field := head tMAP tag ++ w_int32 (Z.of_nat n) 0 ++ r in
+  (2 * length (ser_fields J ++ field) + 3 <= f)%nat ->
+  dec_var (S f) e tag req (TMap kt vt) prior (ser_fields J ++ field) = DErr.
+Proof. exact PrefixProofs.inflated_map_member. Qed.
+Theorem C06_array_count_member : forall e f tag req len x prior lo J n r,
+  junk_ok lo tag J -> tag < 256 -> (len < n)%nat -> N.of_nat n < 2147483648 ->
+  let field := head tLIST tag ++ w_int32 (Z.of_nat n) 0 ++ r in
+  (2 * length (ser_fields J ++ field) + 3 <= f)%nat ->
+  dec_var (S f) e tag req (TArr len x) prior (ser_fields J ++ field) = DErr.
+Proof. exact PrefixProofs.array_count_member. Qed.
 (* struct level: the members before it encoded normally, then a string member announcing more than is left *)
 Theorem C06_inflated_string_rejected : forall e k n sid fds1 fd fds2 vs1 (four : bool) l r,
   wf_schema k e -> (S k <= 64)%nat -> fields_of e sid = fds1 ++ fd :: fds2 -> fty fd = TStr ->
@@ -158,7 +173,7 @@ Proof. exact PrefixProofs.inflated_string_rejected. Qed.
 
 Print Assumptions C06_fixed_width_exact. Print Assumptions C06_fixed_width_truncated.
 Print Assumptions C06_string_exact. Print Assumptions C06_string_truncated.
-Print Assumptions C06_bytes_exact. Print Assumptions C06_bytes_truncated.
+Print Assumptions C06_bytes_exact. Print Assumptions C06_bytes_truncated. Print Assumptions C06_bytes_negative.
 Print Assumptions C06_scalar_prefix.
 Print Assumptions C06_prefix_flat.
 Print Assumptions C06_code_schemas_prefix_flat.
@@ -169,6 +184,8 @@ Print Assumptions C06_member_prefix.
 Print Assumptions C06_inflated_string_member.
 Print Assumptions C06_inflated_bytes_member.
 Print Assumptions C06_inflated_list_member.
+Print Assumptions C06_inflated_map_member.
+Print Assumptions C06_array_count_member.
 Print Assumptions C06_inflated_string_rejected.
 Print Assumptions C06_inadmissible_member.
 Print Assumptions C06_inadmissible_rejected.
